@@ -37,9 +37,14 @@ type vsrvScript struct {
 	SessionID         []byte
 	Compression       uint8
 	SelectedPSK       *uint16 // selected_identity in a pre_shared_key ServerHello extension
-	LegacyVersion     uint16  // 0 = 0x0303
-	SupportedVersion  uint16  // 0 = 0x0304
-	ExtraSHExts       []vfExt
+	// ResumePSK: when the hello offers PSK identities, decrypt the first one with the server's ticket keys and really
+	// resume with it (PSK key schedule, no certificate), announcing selected_identity = *SelectedPSK (default 0): a
+	// cooperative adversary for the PSK-identity check
+	ResumePSK        bool
+	UsedPSK          bool
+	LegacyVersion    uint16 // 0 = 0x0303
+	SupportedVersion uint16 // 0 = 0x0304
+	ExtraSHExts      []vfExt
 
 	// ---- HelloRetryRequest ----
 	HRR       bool
@@ -272,6 +277,21 @@ func vsrvRun13(ctx context.Context, c *Conn, s *vsrvScript) error {
 			return errors.New("vsrv: no TLS 1.3 suite offered")
 		}
 	}
+	var psk []byte
+	if s.ResumePSK && len(ch.pskIdentities) > 0 {
+		c.ticketKeys = c.config.ticketKeys(nil)
+		if plaintext := c.config.decryptTicket(ch.pskIdentities[0].label, c.ticketKeys); plaintext != nil {
+			if ss, err := ParseSessionState(plaintext); err == nil && ss.version == VersionTLS13 {
+				psk = ss.secret
+				if s.Suite == 0 {
+					suiteID = ss.cipherSuite
+				}
+			}
+		}
+		if psk == nil {
+			s.logf("ResumePSK: the offered identity could not be decrypted")
+		}
+	}
 	suite := cipherSuiteTLS13ByID(suiteID)
 	if suite == nil {
 		suite = cipherSuiteTLS13ByID(TLS_AES_128_GCM_SHA256) // announced id is not a TLS 1.3 suite: schedule with a fallback
@@ -387,6 +407,10 @@ func vsrvRun13(ctx context.Context, c *Conn, s *vsrvScript) error {
 	ksb.u16(group)
 	ksb.vec16(serverShare)
 	shExts := []vfExt{svExt, {Type: extensionKeyShare, Body: ksb.b}}
+	if psk != nil && s.SelectedPSK == nil {
+		zero := uint16(0)
+		s.SelectedPSK = &zero
+	}
 	if s.SelectedPSK != nil {
 		shExts = append(shExts, vfExt{Type: extensionPreSharedKey, Body: []byte{byte(*s.SelectedPSK >> 8), byte(*s.SelectedPSK)}})
 	}
@@ -401,7 +425,8 @@ func vsrvRun13(ctx context.Context, c *Conn, s *vsrvScript) error {
 			return err
 		}
 	}
-	early := tls13.NewEarlySecret(suite.hash.New, nil)
+	early := tls13.NewEarlySecret(suite.hash.New, psk)
+	s.UsedPSK = psk != nil
 	hsSecret := early.HandshakeSecret(shared)
 	clientHS := hsSecret.ClientHandshakeTrafficSecret(tr)
 	c.in.setTrafficSecret(suite, QUICEncryptionLevelHandshake, clientHS)
@@ -441,71 +466,78 @@ func vsrvRun13(ctx context.Context, c *Conn, s *vsrvScript) error {
 		return err
 	}
 
-	// ---- CertificateRequest / Certificate / CertificateVerify ----
-	if s.CertRequest {
-		cr := new(certificateRequestMsgTLS13)
-		cr.supportedSignatureAlgorithms = supportedSignatureAlgorithms()
-		raw, _ := cr.marshal()
-		if err := s.send(c, raw, true); err != nil {
-			return err
-		}
-	}
-	cert := s.Cert
-	if cert == nil {
-		cert = &c.config.Certificates[0]
-	}
-	sigAlg, err := selectSignatureScheme(VersionTLS13, cert, ch.supportedSignatureAlgorithms)
-	if err != nil {
-		// fall back to what the key can do: the client's reaction is what is being tested
-		algs := signatureSchemesForCertificate(VersionTLS13, cert)
-		if len(algs) == 0 {
-			return fmt.Errorf("vsrv: no signature scheme for certificate: %w", err)
-		}
-		sigAlg = algs[0]
-	}
-	certMsg := new(certificateMsgTLS13)
-	certMsg.certificate = *cert
-	certMsg.scts = ch.scts && len(cert.SignedCertificateTimestamps) > 0
-	certMsg.ocspStapling = ch.ocspStapling && len(cert.OCSPStaple) > 0
-	certRaw, err := certMsg.marshal()
-	if err != nil {
-		return err
-	}
-	if s.CompressAlg != 0 {
-		compressed, declared := s.CompressFn(certRaw[4:])
-		b := &vsrvB{}
-		b.u16(s.CompressAlg)
-		b.u24(int(declared))
-		b.vec24(compressed)
-		// RFC 8879 s4: the CompressedCertificate message itself goes into the transcript
-		if err := s.send(c, vsrvMsg(utlsTypeCompressedCertificate, b.b), true); err != nil {
-			return err
-		}
-	} else {
-		if err := s.send(c, certRaw, true); err != nil {
-			return err
-		}
-	}
-	sigType, sigHash, err := typeAndHashFromSignatureScheme(sigAlg)
-	if err != nil {
-		return err
-	}
-	signed := signedMessage(sigHash, serverSignatureContext, tr)
-	signOpts := crypto.SignerOpts(sigHash)
-	if sigType == signatureRSAPSS {
-		signOpts = &rsa.PSSOptions{SaltLength: rsa.PSSSaltLengthEqualsHash, Hash: sigHash}
-	}
-	sig, err := cert.PrivateKey.(crypto.Signer).Sign(rand.Reader, signed, signOpts)
-	if err != nil {
-		return err
-	}
-	cv := &vsrvB{}
-	cv.u16(uint16(sigAlg))
-	cv.vec16(sig)
-	if err := s.send(c, vsrvMsg(typeCertificateVerify, cv.b), true); err != nil {
-		return err
-	}
+	// ---- CertificateRequest / Certificate / CertificateVerify (not with a PSK) ----
+	if psk == nil {
+		if err := func() error {
+			if s.CertRequest {
+				cr := new(certificateRequestMsgTLS13)
+				cr.supportedSignatureAlgorithms = supportedSignatureAlgorithms()
+				raw, _ := cr.marshal()
+				if err := s.send(c, raw, true); err != nil {
+					return err
+				}
+			}
+			cert := s.Cert
+			if cert == nil {
+				cert = &c.config.Certificates[0]
+			}
+			sigAlg, err := selectSignatureScheme(VersionTLS13, cert, ch.supportedSignatureAlgorithms)
+			if err != nil {
+				// fall back to what the key can do: the client's reaction is what is being tested
+				algs := signatureSchemesForCertificate(VersionTLS13, cert)
+				if len(algs) == 0 {
+					return fmt.Errorf("vsrv: no signature scheme for certificate: %w", err)
+				}
+				sigAlg = algs[0]
+			}
+			certMsg := new(certificateMsgTLS13)
+			certMsg.certificate = *cert
+			certMsg.scts = ch.scts && len(cert.SignedCertificateTimestamps) > 0
+			certMsg.ocspStapling = ch.ocspStapling && len(cert.OCSPStaple) > 0
+			certRaw, err := certMsg.marshal()
+			if err != nil {
+				return err
+			}
+			if s.CompressAlg != 0 {
+				compressed, declared := s.CompressFn(certRaw[4:])
+				b := &vsrvB{}
+				b.u16(s.CompressAlg)
+				b.u24(int(declared))
+				b.vec24(compressed)
+				// RFC 8879 s4: the CompressedCertificate message itself goes into the transcript
+				if err := s.send(c, vsrvMsg(utlsTypeCompressedCertificate, b.b), true); err != nil {
+					return err
+				}
+			} else {
+				if err := s.send(c, certRaw, true); err != nil {
+					return err
+				}
+			}
+			sigType, sigHash, err := typeAndHashFromSignatureScheme(sigAlg)
+			if err != nil {
+				return err
+			}
+			signed := signedMessage(sigHash, serverSignatureContext, tr)
+			signOpts := crypto.SignerOpts(sigHash)
+			if sigType == signatureRSAPSS {
+				signOpts = &rsa.PSSOptions{SaltLength: rsa.PSSSaltLengthEqualsHash, Hash: sigHash}
+			}
+			sig, err := cert.PrivateKey.(crypto.Signer).Sign(rand.Reader, signed, signOpts)
+			if err != nil {
+				return err
+			}
+			cv := &vsrvB{}
+			cv.u16(uint16(sigAlg))
+			cv.vec16(sig)
+			if err := s.send(c, vsrvMsg(typeCertificateVerify, cv.b), true); err != nil {
+				return err
+			}
 
+			return nil
+		}(); err != nil {
+			return err
+		}
+	}
 	// ---- Finished ----
 	fin := suite.finishedHash(c.out.trafficSecret, tr)
 	if err := s.send(c, vsrvMsg(typeFinished, fin), true); err != nil {
